@@ -959,3 +959,47 @@ def rule_symplectic_form_dim(ctx: Ctx) -> None:
                 raise AnalysisError(f"{fn.name}: cannot tell where the block size `{d}` of the symplectic form comes from")
     if n == 0:
         raise AnalysisError("dim.symplectic-form: no symplectic form construction found")
+
+
+# --------------------------------------------------------------------------- eq.decision
+
+
+def rule_eq_decision(ctx: Ctx) -> None:
+    """eq.decision: StabilizerTableau.__eq__ and CliffordTableau.__eq__ answer True exactly when the other object is a tableau of the same
+    class and *every* storage field agrees (table and sign vector; for the Clifford tableau also the i-phase vector).  Decided on the
+    truth table of the method (gqsa/boolform.py): a field compared with the wrong polarity, an `or` for an `and`, or a field left out
+    is reported; how the conjunction is written is irrelevant."""
+    from ..boolform import Table, Undecidable
+    repo = ctx.repo
+    for rel, cname, fields in ((TABLEAU, "StabilizerTableau", ["@.phase", "@.table"]), (CTABLEAU, "CliffordTableau", ["@.phase", "@.iphase", "@.table"])):
+        m = repo.module(rel)
+        ci = repo.cls(cname, rel)
+        fn = ci.methods().get("__eq__")
+        if fn is None:
+            raise AnalysisError(f"{cname}.__eq__ missing")
+        ctx.touch(m, fn)
+        tb = Table()
+        try:
+            run = tb.outcomes(fn.body)
+        except Undecidable as e:
+            raise AnalysisError(f"{cname}.__eq__: not decidable ({e})")
+        pair = {k: a.pair for k, a in tb.atoms.items() if a.pair is not None}
+        guards = [k for k in tb.atoms if k not in pair]
+        rows = list(tb.rows())
+        accept = lambda a: run(a) == ("return", True)
+        problems = []
+        for f in fields:
+            ks = [k for k, pf in pair.items() if pf == f or pf.replace("._", ".") == f or pf.endswith(f[1:])]
+            if not ks:
+                problems.append(f"`{f.replace('@', 'self')}` is not compared with the other tableau's")
+                continue
+            if any((not a[ks[0]]) and accept(a) for a in rows):
+                problems.append(f"tableaux that differ in `{f[2:]}` compare equal")
+        if any(all(a[k] for k in pair) and all(a[g] for g in guards) and not accept(a) for a in rows):
+            problems.append("two tableaux of the class that agree in every field compare unequal")
+        if any(accept(a) and not all(a[g] for g in guards) for a in rows):
+            problems.append("an object that fails the class test can compare equal")
+        if problems:
+            ctx.fail("eq.decision", m, fn, f"{cname}.__eq__: " + "; ".join(problems), func=f"{cname}.__eq__", construct=f"{cname}.__eq__: decision table")
+        else:
+            ctx.ok("eq.decision", m, fn, what=f"{cname}.__eq__ == class test and {' and '.join(f[2:] for f in fields)} equal ({len(rows)} rows)")
